@@ -98,7 +98,7 @@ Lemma tie_borda_set_n : forall base k,
   map (fun r => inject_Z (Z.of_nat k + base - 1 - Z.of_nat r)) (seq 0 k).
 Proof.
   intros base k. unfold Gen.Rankscore.Borda_set_n_candidates, py_range. cbv zeta.
-  rewrite Nat2Z.id, !map_map. apply map_ext. intros r. f_equal. lia.
+  rewrite Nat2Z.id, !map_map. apply map_ext. intros r. f_equal; lia.
 Qed.
 
 Lemma tie_borda_set_n_state : forall base k,
